@@ -207,7 +207,7 @@ def c02_cases(rng, tier):
     for src in P2.repeated_chain_programs(rng, 120 if tier != 'thorough' else 800):
         cases.append({'src': src, 'alone': None, 'kind': 'repeated-chain'})
     for c in P3.special_float_chain_programs() + P3.chain_junction_programs(rng, 80 if tier != 'thorough' else 600) + P4.chain_block_shape_programs(rng, 150 if tier != 'thorough' else 1000) + P4.jump_only_branch_programs() + \
-             P5.chain_then_jump_programs(rng, 60 if tier != 'thorough' else 400) + P5.recursive_condition_programs():
+             P5.chain_then_jump_programs(rng, 60 if tier != 'thorough' else 400) + P5.recursive_condition_programs() + P5.chain_edge_programs():
         cases.append(dict(c, alone=None))
     return cases
 
@@ -290,6 +290,7 @@ def c03_cases(rng, tier):
     cases += P4.many_locals_programs(rng, 80 if tier != 'thorough' else 500)
     cases += P5.jump_only_exit_programs(rng, 60 if tier != 'thorough' else 400)
     cases += P5.continue_after_block_programs(rng, 40 if tier != 'thorough' else 300)
+    cases += P5.stale_name_cache_programs(rng, 30 if tier != 'thorough' else 200)
     return cases
 
 
@@ -372,6 +373,7 @@ def c05_cases(rng, tier):
 # ------------------------------------------------------------------------------------------------ C04 scopes
 def c04_cases(rng, tier):
     cases = P4.shadowed_scalar_index_programs() + P4.many_locals_programs(rng, 40 if tier != 'thorough' else 300) + P4.higher_order_programs(rng, 30 if tier != 'thorough' else 200)
+    cases += P5.shadow_then_return_programs()
     for src in function_depth_loop_programs(rng, 40 if tier != 'thorough' else 300):
         cases.append({'src': src, 'kind': 'scopes function-depths'})
     n = 1500 if tier == 'thorough' else 300
@@ -471,6 +473,7 @@ def c06_cases(rng, tier):
     cases += P4.assignment_order_programs(rng, k4) + P4.expression_statement_programs(rng, k4) + P4.concat_nested_identity_programs(rng, k4) + P4.shadowed_scalar_index_programs()
     cases += P5.held_while_callee_allocates_programs() + P5.multi_level_assignment_programs(rng, 20 if tier != 'thorough' else 150)
     cases += P5.fractional_index_programs(rng, 20 if tier != 'thorough' else 150) + P5.record_only_gc_programs()
+    cases += P5.shadowed_root_programs()
     return cases
 
 
@@ -508,6 +511,7 @@ def c16_cases(rng, tier):
         cases.append({'src': src, 'kind': 'concat-fresh'})
     cases += P4.expression_statement_programs(rng, 60 if tier != 'thorough' else 400)
     cases += P5.multi_level_assignment_programs(rng, 40 if tier != 'thorough' else 300) + P5.held_while_callee_allocates_programs()
+    cases += P5.shadowed_root_programs()
     return cases
 
 
@@ -550,6 +554,7 @@ def c17_cases(rng, tier):
     for bad in ['_টাইপ()', '_টাইপ(১, ২)', '_স্ট্রিং-স্প্লিট("a")', '_স্ট্রিং-স্প্লিট("a", ১)', '_স্ট্রিং-স্প্লিট(১, "a")', '_স্ট্রিং-জয়েন(["a"])', '_স্ট্রিং-জয়েন(["a", ১], ",")', '_স্ট্রিং-জয়েন("a", ",")', '_স্ট্রিং-জয়েন(["a"], ১)', '_স্ট্রিং-স্প্লিট("a", "b", "c")']:
         cases.append({'src': prog(['দেখাও "আগে";', 'দেখাও %s;' % bad, 'দেখাও "পরে";']), 'kind': 'badargs'})
     cases += P3.text_oddities() + P4.unbound_split_programs(rng, 20 if tier != 'thorough' else 100) + P4.file_text_split_programs()
+    cases += P5.join_fault_programs()
     return cases
 
 
@@ -665,6 +670,7 @@ def c13_cases(rng, tier):
                     cases.append({'src': prog(body), 'kind': 'fault stale-name'})
     cases += P3.negative_fraction_write_programs() + P4.statement_fault_programs()
     cases += P5.string_newline_fault_programs()
+    cases += P5.multi_line_print_fault_programs()
     # every built-in with wrong argument counts / types, in two plain positions
     for fk, fe in (BUILTIN_FAULTS if tier == 'thorough' else rng.sample(BUILTIN_FAULTS, 160)):
         cases.append({'src': prog(pre + ['ফাং ফ() {', '} ফেরত;', 'দেখাও "১";', 'নাম ফল = %s;' % fe, 'দেখাও _টাইপ(ফল);', 'দেখাও "পরে";']), 'kind': 'fault builtin-args'})
@@ -741,6 +747,7 @@ def c07_programs(rng, tier):
         cases.append(dict(c, scheds=['e', 'n', '0' * 211 + '1']))
     cases += P4.gc_root_programs(rng, 10 if tier != 'thorough' else 60)
     cases += P5.record_only_gc_programs()
+    cases += P5.shadowed_root_programs()
     return cases
 
 
@@ -792,6 +799,8 @@ def c09_literal_cases(rng, tier):
         lits.append(lit)
     for l in lits:
         cases.append({'src': prog(['নাম ক = %s;' % l, 'দেখাও ক;', 'দেখাও _স্ট্রিং(ক);', 'দেখাও _সংখ্যা(_স্ট্রিং(ক)) == ক;', 'দেখাও _সংখ্যা("%s") == ক;' % l.replace('"', '')]), 'kind': 'literal', 'lit': l})
+    for lst in ['[১০,২০,৩০]', '[১,২০০,৩]', '[১২,৩৪৫,৬৭৮]', '[১০০,২৫০]', '[১.৫,২৫,১২৫]', '[৯,৯০,৯০০]', '[-১০,-২০]', '[১০ ,২০]']:
+        cases.append({'src': prog(['নাম ত = %s;' % lst, 'দেখাও ত;', 'দেখাও _লিস্ট-লেন(ত);', 'ফাং যোগ(ক, খ) {', '    ফেরত [ক, খ];', '} ফেরত;', 'দেখাও যোগ(১০০,২৫০);', 'দেখাও যোগ(৯,৯০);']), 'kind': 'literal-list'})
     for t in ['abc', '', '১২a', '১.২.৩', '--১', '১e৫', 'inf', 'NaN', '.', ' ১', '১ ', '+১', '১,০০০', '১২৩'] + P4.NUM_TEXTS_ZW:
         cases.append({'src': prog(['দেখাও "আগে";', 'দেখাও _সংখ্যা("%s");' % t, 'দেখাও "পরে";']), 'kind': 'to_num'})
     arith = ['১ / ৩', '২ / ৩', '০.১ + ০.২', '০.১ * ৩', '১ / ০', '-১ / ০', '০ / ০', '১০ / ৪', '২ * ০.৫', '১০০০০০০০০০০ * ১০০০০০০০০০০০০', '১ / ৩ * ৩', '৯০০৭১৯৯২৫৪৭৪০৯৯২ + ১', '৯০০৭১৯৯২৫৪৭৪০৯৯২ + ২',
@@ -856,7 +865,7 @@ def c15_cases(rng, tier):
                       'files': [('a.pakhi', prog(pre + ['মডিউল খ = "b.pakhi";', 'দেখাও "a";'])), ('b.pakhi', prog(pre + ['মডিউল গ = "a.pakhi";', 'দেখাও "b";']))], 'kind': 'inner-cycle'})
         cases.append({'src': prog(['মডিউল ক = "a.pakhi";', 'দেখাও "main";']),
                       'files': [('a.pakhi', prog(pre + ['মডিউল খ = "b.pakhi";', 'দেখাও "a";'])), ('b.pakhi', prog(pre + ['মডিউল গ = "c.pakhi";', 'দেখাও "b";'])), ('c.pakhi', prog(pre + ['মডিউল ঘ = "b.pakhi";', 'দেখাও "c";']))], 'kind': 'inner-cycle'})
-    cases += P3.import_graph_oddities() + P3.module_alias_programs() + P4.reimport_programs() + P4.unfinished_module_programs() + P5.module_ending_with_import_programs() + P5.dirname_import_programs()
+    cases += P3.import_graph_oddities() + P3.module_alias_programs() + P4.reimport_programs() + P4.unfinished_module_programs() + P5.module_ending_with_import_programs() + P5.dirname_import_programs() + P5.odd_import_path_programs()
     for stmt in P4.IMPORT_FORMS2:
         cases.append({'src': prog(['দেখাও "আগে";', stmt, 'দেখাও "পরে";']), 'files': [('mod.pakhi', 'দেখাও "mod";\n')], 'kind': 'import-forms'})
     return cases
@@ -900,7 +909,7 @@ def c14_cases(rng, tier):
                            'দেখাও %s/ছায়া(৩, ৪);' % aliases[i], 'দেখাও %s/মান;' % aliases[i]]
         main_lines += ['দেখাও মান;', 'মান = ৫;', 'দেখাও %s/মান;' % aliases[0], 'দেখাও তালিকা;' if rng.random() < 0.3 else 'দেখাও "শেষ";', 'দেখাও _রিড-ফাইল(_ডাইরেক্টরি + "root.txt");']
         cases.append({'src': prog(main_lines), 'files': mods + datafiles, 'kind': 'modules', 'main': 'app/main.pakhi'})
-    cases += P3.module_alias_programs() + [c for c in P3.import_graph_oddities() if c['kind'] in ('chain-slash-alias', 'diamond-slash-alias', 'case-distinct-files')] + P4.reimport_programs() + P5.module_ending_with_import_programs() + P5.dirname_import_programs()
+    cases += P3.module_alias_programs() + [c for c in P3.import_graph_oddities() if c['kind'] in ('chain-slash-alias', 'diamond-slash-alias', 'case-distinct-files')] + P4.reimport_programs() + P5.module_ending_with_import_programs() + P5.dirname_import_programs() + P5.forward_reference_module_programs()
     return cases
 
 
